@@ -2,7 +2,7 @@
 # tools/seed_verify.sh <worktree> <PID> <X>   -- verify a seeded change in its scratch worktree and keep it
 # pristine: demo passes; patched: full suite passes, demo fails. Copies to /verif/seeded/<PID>-<X>/.
 WT="$1"; PID="$2"; X="$3"
-XS=$(echo "$X" | sed "s/^W[34]//"); S="$WT/_seeded/$XS"
+XS=$(echo "$X" | sed "s/^W[3-9]//"); S="$WT/_seeded/$XS"
 cd "$WT" || exit 2
 git checkout -q -- . || exit 2
 [ -z "$(git status --short | grep -v '_seeded')" ] || { echo "worktree not pristine"; exit 2; }
